@@ -362,9 +362,9 @@ def _verify(kind, keyid, params, sig, msg):
         raise InvalidSignature()
 
 
-def _sign(kind, keyid, params, msg):
+def _sign(kind, keyid, params, msg, size=None):
     env = CUR
-    sig = Opaque("sig", kind, keyid, params, msg)
+    sig = Opaque("sig", kind, keyid, params, msg) if size is None else Sized("sig", size, kind, keyid, params, msg)
     env.rec("sign", family=kind, key=keyid, params=params, msg=msg, sig=sig)
     env.signed.append((kind, keyid, params, msg, sig))
     return sig
@@ -377,7 +377,15 @@ class FakeRSAPublic(_FakeBase, _rsa.RSAPublicKey):
     key_size = property(lambda self: self._bits)
 
     def verify(self, signature, data, padding, algorithm):
-        _verify("RSA", self.kid, (_describe_padding(padding), algorithm.name), signature, data)
+        # length contract probed on pyca/cryptography 50: PKCS1v15 rejects every signature that is not exactly as long as the
+        # modulus; PSS rejects longer ones but converts a SHORTER one to the same integer (so a signature with leading zero
+        # octets stripped still verifies) -- for shorter PSS signatures the verdict is therefore the solver's
+        k = (self._bits + 7) // 8
+        pad = _describe_padding(padding)
+        if (pad[0] == "PKCS1v15" and len(signature) != k) or len(signature) > k:
+            CUR.rec("verify", family="RSA", key=self.kid, params=(pad, algorithm.name), sig=signature, msg=data, verdict=False)
+            raise InvalidSignature()
+        _verify("RSA", self.kid, (pad, algorithm.name), signature, data)
 
     def encrypt(self, plaintext, padding):
         ek = Sized("rsaenc", self._bits // 8, self.kid, _describe_padding(padding), plaintext)
@@ -406,7 +414,7 @@ class FakeRSAPrivate(_FakeBase, _rsa.RSAPrivateKey):
         return self._pub
 
     def sign(self, data, padding, algorithm):
-        return _sign("RSA", self.kid, (_describe_padding(padding), algorithm.name), data)
+        return _sign("RSA", self.kid, (_describe_padding(padding), algorithm.name), data, size=(self._bits + 7) // 8)
 
     def decrypt(self, ciphertext, padding):
         env = CUR
